@@ -243,6 +243,20 @@ func runMayFatalUnlock(c *Ctx) {
 						})
 					}
 				}
+				if guarded && u.name == "RUnlock" {
+					// the guard has to be sufficient, not just present
+					if g := intGuardBefore(info, fr.Decl, base, u.call.Pos()); g != nil {
+						fieldName := g.field[strings.LastIndex(g.field, ".")+1:]
+						neg, negPos := storesNegative(c, rel, info, fieldName)
+						bad := ""
+						if g.passing[0] {
+							bad = "the value 0 (no reader holds the mutex) gets past it"
+						} else if (g.passing[-1] || g.passing[-2]) && neg {
+							bad = "negative values get past it, and " + c.Pos(negPos) + " stores a negative constant into the same field (a write-lock marker): releasing for reading a mutex that is held for writing reaches RUnlock"
+						}
+						c.Check(bad == "", key+"/guard-excludes-unheld", g.pos, "%s.%s refuses the read-unlock by comparing the atomic counter %s with a constant, but %s; RUnlock of a mutex that is not read-locked is a fatal error of the Go runtime that no recover() catches", rel, FuncName(fr.Decl), g.field, bad)
+					}
+				}
 				c.Check(guarded, key, u.call.Pos(), "%s.%s calls %s on %s without the matching lock in the same function and without first testing state it tracks itself: if the program unlocks a mutex that is not held the Go runtime aborts the process (fatal error: sync: unlock of unlocked mutex), which the surrounding recover() cannot catch", rel, FuncName(fr.Decl), u.name, u.recv)
 			}
 		})
